@@ -86,10 +86,12 @@ class C07(Prop):
     level_text = ("Theorems for all keys/COUNT/BEARER/DIRECTION and all message lengths: the code-shaped models of NEA1/NIA1 "
                   "(incl. SNOW 3G with its tables regenerated from the source) equal 128-EEA1/EIA1, NEA2/NIA2 equal 128-EEA2/EIA2 "
                   "parametric in AES-CTR/CMAC, NEA0 is the identity, every octet is covered, the ciphers are involutions; "
-                  "models tied to security.go/snow3g.go by a table translator and a differential run at every length")
-    level_note = ("crypto/aes, cipher.NewCTR, aead/cmac are parameters (trusted); hand models tied by differential execution; "
+                  "models tied to the code by TRANSLATION + theorem for all of snow3g.go, NEA1 and NIA1 (gen pure-secalg / pure-secnas: generated "
+                  "definition = model for every input), by a table translator for the S-boxes, and by a differential run at every length "
+                  "(the only tie of NASEncrypt, NASMacCalculate, NEA2, NIA2)")
+    level_note = ("crypto/aes, cipher.NewCTR, aead/cmac are parameters (trusted); NEA2/NIA2 and the two dispatchers are hand models tied by differential execution; "
                   "specs transcribed from TS 35.215/35.216/33.401-B and anchored by TS 35.222 / FIPS-197 / RFC 4493 vectors")
-    technique = "Lean 4 proof (model = spec for all inputs) + table translator + differential correspondence"
+    technique = "Lean 4 proof (model = spec for all inputs; generated-from-source definitions = model for SNOW 3G, NEA1, NIA1) + table translator + differential correspondence"
     partial_note = ("'function of the arguments only' is proved for sequential use (InitSnow3g overwrites all state); "
                     "concurrent use is property C20")
     assumptions = ["message lengths are below 2^29 octets (uint32(len)*8 does not wrap)"]
